@@ -54,7 +54,7 @@ Cfgs == {c \in [op : Ops, plat : Platforms, any_pin : BOOLEAN, no_unlock : BOOLE
 
 Env0 == [pinc |-> "?", mode |-> "?", onb |-> "?", echo |-> "?", answers |-> "?", retry |-> "?",
          wipe |-> "?", unlock |-> "?", newpin |-> "?", mode2 |-> "?", keys |-> "?", pre |-> "?",
-         link |-> "?", linkat |-> "?"]
+         link |-> "?", linkat |-> "?", enter |-> "?", post |-> "?"]
 
 \* what already sits at the output path(s) when the command comes to write (see AdminProps)
 PrePubkeys == {"absent", "same", "other", "extra", "fewer", "notjson", "dir", "dirjson"}
@@ -71,13 +71,24 @@ Garbled(a)  == a \in {"g:yes", "g:no"}
 OnbTruth(a) == IF a = "g:yes" THEN "yes" ELSE IF a = "g:no" THEN "no" ELSE a
 
 P == PinOf(env.pinc)
+\* what the operator answers to "Do you want to proceed?"; "eof": the input ends there (at the
+\* first prompt, or after one other answer)
 Answers(a) == IF a = "yes" THEN <<"yes">> ELSE IF a = "no" THEN <<"no">>
               ELSE IF a = "oy" THEN <<"other", "yes">> ELSE IF a = "on" THEN <<"other", "no">>
+              ELSE IF a = "eof" THEN <<"eof">> ELSE IF a = "oeof" THEN <<"other", "eof">>
               ELSE <<"yes">>           \* never asked: read in favour of the precondition
+\* what the operator types at a PIN prompt: the entry P, and after a rejection (env.retry) a compliant
+\* entry, nothing more (end of input), a second rejected entry and then either; "eof0": the input
+\* ends at the very first prompt
+Entries(r) == IF r = "valid" THEN <<P, PinOf("ok")>>
+              ELSE IF r = "r2valid" THEN <<P, P, PinOf("ok")>>
+              ELSE IF r = "r2eof" THEN <<P, P>>
+              ELSE IF r = "eof0" THEN <<>>
+              ELSE <<P>>
 \* the run's inputs as AdminProps wants them
 C == [op |-> cfg.op, plat |-> cfg.plat, any_pin |-> cfg.any_pin, no_unlock |-> cfg.no_unlock,
       src |-> cfg.src,
-      pins |-> IF cfg.src = "prompt" /\ env.retry = "valid" THEN <<P, PinOf("ok")>> ELSE <<P>>,
+      pins |-> IF cfg.src = "prompt" THEN Entries(env.retry) ELSE <<P>>,
       upin |-> UPin, outfile |-> cfg.outfile, answers |-> Answers(env.answers),
       d0 |-> [mode |-> env.mode, onb |-> IF Garbled(env.onb) THEN "garbled" ELSE env.onb, echo |-> env.echo],
       acc |-> [wipe |-> env.wipe, unlock |-> env.unlock, newpin |-> env.newpin],
@@ -90,6 +101,7 @@ Emit(es) == /\ obs' = ObserveAll(C, obs, es)
 Quiet == UNCHANGED <<obs, hist>>
 Fail  == pc' = "done" /\ outcome' = "err"
 Done  == pc' = "done" /\ outcome' = "ok"
+Hang  == pc' = "done" /\ outcome' = "hang"     \* keeps prompting: never returns
 Go(p) == pc' = p /\ UNCHANGED outcome
 E(cls, d, ans, ok) == Ev(cls, d, ans, ok, 0, 0, <<>>)
 EB(cls, d, i, b)   == Ev(cls, d, "na", "t", i, b, <<>>)
@@ -158,25 +170,31 @@ Echo ==
 (***************************************************************************)
 Confirm ==
     /\ pc = "confirm"
-    /\ \E a \in {"yes", "no", "oy", "on"} :
+    /\ \E a \in {"yes", "no", "oy", "on", "eof", "oeof"} :
          /\ env' = [env EXCEPT !.answers = a]
          /\ Emit([k \in 1..Len(Answers(a)) |-> E("stdin", dev, Answers(a)[k], "na")])
-         /\ IF a \in {"yes", "oy"} THEN Go("getpin") ELSE Fail
+         \* sys.stdin.readline() at end of input returns "" for ever: the loop keeps asking
+         /\ IF a \in {"yes", "oy"} THEN Go("getpin") ELSE IF a \in {"eof", "oeof"} THEN Hang ELSE Fail
     /\ UNCHANGED <<cfg, dev, files, pin>>
 
-\* ask_for_pin(any): re-asks until valid; the operator then types a valid PIN or gives up (EOF)
+\* ask_for_pin(any): re-asks until valid. Where the operator's input ends is the environment's
+\* choice: at the first prompt, right after one or two rejected entries, or not before a compliant
+\* entry has been typed. getpass() at end of input raises EOFError: the command stops.
+GP(ok) == E("getpass", dev, "na", ok)
 Prompt(any, next) ==
-    \E c \in PinClasses :
-      IF Valid(PinOf(c), any)
-      THEN /\ env' = [env EXCEPT !.pinc = c]
-           /\ Emit(<<E("getpass", dev, "na", "na")>>) /\ pin' = PinOf(c) /\ Go(next)
-      ELSE \E r \in {"valid", "eof"} :
-             /\ env' = [env EXCEPT !.pinc = c, !.retry = r]
-             /\ IF r = "valid"
-                THEN /\ Emit(<<E("getpass", dev, "na", "na"), E("getpass", dev, "na", "na")>>)
-                     /\ pin' = PinOf("ok") /\ Go(next)
-                ELSE /\ Emit(<<E("getpass", dev, "na", "na"), E("getpass", dev, "na", "f")>>)
-                     /\ UNCHANGED pin /\ Fail
+    \/ /\ env' = [env EXCEPT !.retry = "eof0"]
+       /\ Emit(<<GP("f")>>) /\ UNCHANGED pin /\ Fail
+    \/ \E c \in PinClasses :
+         IF Valid(PinOf(c), any)
+         THEN /\ env' = [env EXCEPT !.pinc = c]
+              /\ Emit(<<GP("na")>>) /\ pin' = PinOf(c) /\ Go(next)
+         ELSE \E r \in {"valid", "eof", "r2valid", "r2eof"} :
+                /\ env' = [env EXCEPT !.pinc = c, !.retry = r]
+                /\ IF r = "valid" THEN Emit(<<GP("na"), GP("na")>>) /\ pin' = PinOf("ok") /\ Go(next)
+                   ELSE IF r = "r2valid"
+                        THEN Emit(<<GP("na"), GP("na"), GP("na")>>) /\ pin' = PinOf("ok") /\ Go(next)
+                   ELSE IF r = "eof" THEN Emit(<<GP("na"), GP("f")>>) /\ UNCHANGED pin /\ Fail
+                   ELSE Emit(<<GP("na"), GP("na"), GP("f")>>) /\ UNCHANGED pin /\ Fail
 
 GetPin ==
     /\ pc = "getpin"
@@ -232,16 +250,20 @@ SgxOnboard ==
 \* The device kept at most 8 PIN characters: a longer PIN (any-PIN only) no longer unlocks it.
 PostUnlock ==
     /\ pc = "enter"
-    /\ LET ok == IF Len(pin) <= 8 THEN "t" ELSE "f" IN
-       /\ Emit(<<E("stdin", dev, "other", "na"),
-                 E("get_mode", dev, "boot", "t"), E("is_onboard", dev, "yes", "t"),
-                 E("echo", dev, "na", "t")>>
-               \o (IF cfg.src = "prompt" THEN <<E("getpass", dev, "na", "na")>> ELSE <<>>)
-               \o PinBytes(pin, dev)
-               \o <<E("unlock", dev, "na", ok)>>
-               \o (IF ok = "t" THEN <<E("exit", dev, "na", "na")>> ELSE <<>>))
-       /\ IF ok = "t" THEN Go("attest") ELSE Fail
-    /\ UNCHANGED <<cfg, env, dev, files, pin>>
+    /\ \E enter \in {"other", "eof"}, post \in {"retype", "eof"} :
+         /\ (cfg.src = "opt" => post = "retype")
+         /\ env' = [env EXCEPT !.enter = enter, !.post = IF cfg.src = "prompt" THEN post ELSE "?"]
+         /\ LET ok == IF Len(pin) <= 8 THEN "t" ELSE "f"
+                head == <<E("stdin", dev, enter, "na"),        \* [Enter], or the input has ended: goes on
+                          E("get_mode", dev, "boot", "t"), E("is_onboard", dev, "yes", "t"),
+                          E("echo", dev, "na", "t")>> IN
+            IF cfg.src = "prompt" /\ post = "eof"
+            THEN Emit(head \o <<GP("f")>>) /\ Fail       \* the PIN is asked for again: end of input
+            ELSE /\ Emit(head \o (IF cfg.src = "prompt" THEN <<GP("na")>> ELSE <<>>)
+                           \o PinBytes(pin, dev) \o <<E("unlock", dev, "na", ok)>>
+                           \o (IF ok = "t" THEN <<E("exit", dev, "na", "na")>> ELSE <<>>))
+                 /\ IF ok = "t" THEN Go("attest") ELSE Fail
+    /\ UNCHANGED <<cfg, dev, files, pin>>
 
 \* attestation setup, then the certificate is saved over whatever is at the output path
 Attest ==
@@ -400,6 +422,7 @@ PinHeld        == Terminal => PinHeldP(C, obs, pin)
 Carried        == Terminal => CarriedP(C, obs, outcome)
 PubkeysWritten == Terminal => PubkeysWrittenP(C, outcome, files, Expect)
 WriteError     == Terminal => WriteErrorP(C, outcome)
+InputError     == Terminal => InputErrorP(obs, outcome)
 \* vacuity guards: each must be *violated* (negative configurations)
 NeverOnboards   == ~(Terminal /\ cfg.op = "onboard" /\ outcome = "ok")
 NeverUnlocks    == ~(Terminal /\ cfg.op = "unlock" /\ outcome = "ok")
